@@ -36,6 +36,15 @@ CHECKS = {
     "C04": ("exploration", "runtime monitoring: online trace checker on ServiceListener callbacks ((A R)* A? per instance) plus live-set == cache invariant at quiescent points, in the virtual-time simulator",
             "Generated histories of injected responses and clock advances (real purge timer) against real AsyncServiceBrowsers; callbacks are checked online for alternation, for agreement with the cached PTR set at every quiescent point, and for visibility of the triggering datagram's records inside add_service.",
             "Stays inside the stated restrictions (exact owner spelling, unrelated types, no case-variants in one datagram, no browser start over expired-unpurged PTRs).", "2/C04"),
+    "C08": ("exploration", "runtime monitoring: offline trace checker over the simulated wire (goodbye completeness, 'never after' resurrection rule) across injected-query schedules around the unregister instant",
+            "Queries are injected on a grid of offsets around unregister/close so that answers sit in the immediate, aggregation or protected queue; the host's wire trace is decoded by the independent parser and checked for exactly three complete goodbyes and for no positive-TTL copy of a withdrawn record afterwards (5 s observation).",
+            "Unregister issued after the registration's announcement task finished; address/NSEC records are only in scope when the host name is not shared with a remaining service.", "2/C08"),
+    "C09": ("exploration", "runtime monitoring: offline trace checker of probe/announce timing and format in virtual time, with conflicts injected on a grid around the probe instants and a real second instance defending the name",
+            "Probe count/spacing/format, no multicast of the service before the last probe, three complete announcements with correct flush bits and TTLs, conflict => exception or first free -N name re-probed, conflicting name never sent, registry index invariant.",
+            "Conflicts arriving within 1 ms of the last probe instant may go either way.", "2/C09"),
+    "C10": ("exploration", "runtime monitoring: offline checker over query timestamps on the simulated wire against a scheduler model (start-up schedule, spacing, justified-query and bounded-liveness windows) in virtual time",
+            "PTR records of various TTLs learned in any order (incl. shorter-lived after longer-lived), refreshed/re-cased/withdrawn/left to expire; every query of the host is checked for schedule, spacing and justification, and every record that expires must have had its 75 % and rescue queries.",
+            "Lateness bound 2 x delay (churn-avoidance + spacing), earliness bound delay; 'eventually' restated as bounded windows in virtual time.", "2/C10"),
 }
 
 NOT_YET = {}
